@@ -163,5 +163,13 @@ void aws_thread_pending_join_add(struct aws_linked_list_node *node) {
 }
 
 void aws_thread_initialize_thread_management(void) {
-    aws_linked_list_init(&s_pending_join_managed_threads);
+    /*
+     * The list is statically zeroed and has to be set up once. A later library initialization must leave it alone:
+     * a managed thread that finished after a timed-out aws_thread_join_all_managed() may be waiting in it for its join.
+     */
+    aws_mutex_lock(&s_managed_thread_lock);
+    if (s_pending_join_managed_threads.head.next == NULL) {
+        aws_linked_list_init(&s_pending_join_managed_threads);
+    }
+    aws_mutex_unlock(&s_managed_thread_lock);
 }
